@@ -45,11 +45,13 @@ def build_points_curve_surface(path):
         d = p.add_data({"pa": {"values": _ints(4)}, "pb": {"values": _ints(4, 2)}, "pc": {"values": _ints(4, 3)}})
         p.add_data_to_group(d[:2], "PG1")
         p.add_data_to_group(d[2:], "PG2")
+        p.add_data_to_group(d[1:], "PG3")
         c = Curve.create(ws, name="crv", vertices=np.array([[0.0, 0, 0], [1, 0, 0], [2, 0, 0], [3, 0, 0]]),
                          cells=np.array([[0, 1], [1, 2], [2, 3]], dtype="uint32"))
         dc = c.add_data({"cv": {"values": _ints(4)}, "cc": {"values": _ints(3), "association": "CELL"},
                          "ci": {"values": np.array([1, 2, 3, 4], dtype="int32"), "type": "integer"}})
         c.add_data_to_group(dc[0], "CPG")
+        c.add_data_to_group(dc[2], "CPG2")
         s = Surface.create(ws, name="srf", vertices=np.array([[0.0, 0, 0], [1, 0, 0], [0, 1, 0], [1, 1, 0]]),
                            cells=np.array([[0, 1, 2], [1, 2, 3]], dtype="uint32"))
         s.add_data({"sv": {"values": _ints(4)}, "sb": {"values": np.array([True, False]), "association": "CELL", "type": "boolean"}})
